@@ -84,6 +84,16 @@ CLAIMED["C20"] = dict(
    note="Trusted: go/ssa, the list of kind-sensitive reflect operations, the assumption that wrappers are interface{} slots. CanAddr/CanSet differences between an element and a copy are treated as intended aliasing.",
    technique="abstract interpretation on SSA (taint-style typestate: wrapped / unwrapped) with path folding and helper summaries",
    design="4 C20")
+CLAIMED["C05"] = dict(
+   text="Decided: the structural necessary conditions of correct arithmetic, not the arithmetic results. R1 every arithmetic handler computes from the two operands it evaluated (left from LHS, right from RHS, never the same one twice) under the case of its own operator token, with the Go operator of that token. R2 for +,-,*,<,<=,>,>= an exact int64 path exists and is guarded by 'both operands are integer kinds' while the float path is its complement, so two integers are never routed through float64. R3 the small-integer cache is filled with exactly index-offset values and read with the same offset inside its bounds test. R4 / and % test the divisor against zero on every path before dividing integers. R5 string concatenation of a number uses the one formatting routine (fmt.Sprint-compatible) everywhere.",
+   note="Not decided: the numeric results themselves, overflow/wrap-around behaviour, float formatting. Trusted: go/ssa and the Go operators.",
+   technique="SSA dataflow (operand provenance from evaluation events to binary operators), dominance-based guard analysis, constant evaluation of the cache initialiser loop",
+   design="4 C05")
+CLAIMED["C06"] = dict(
+   text="Decided: structural necessary conditions of a coherent equality; symmetry and coercion for all values are not decided. R1 '!=' is the negation of the very comparator call '==' makes (same callee, same operands, same order). R2 'in' and switch compare with that comparator only and its result decides. R3 in the comparator the two nil tests decide first (path-sensitive simulation over the four outcomes of the two tests). R4 the float64 comparison is unreachable when neither operand is a float and the int64 comparison reachable exactly then (simulation over the outcomes of the two is-float tests). R5 every strconv.ParseInt on operand strings is base 10 (bases 2/16 only on the unmodified prefix-tested string, where the prefix makes the parse fail); base 0 or a variable base is reported. R6 the formatted-string comparison of numbers is reachable only when both operands are floats (an int/float pair is compared through the same float64 projection <= and >= use). R7 the set of strconv parse routines (with bases) reachable from the conversions applied to a string operand is the same whichever side the string is on. R6 and R7 found two genuine defects (1000000 == 1000000.0 false; 1000000 == \"1000000\" false but the reverse true), repaired in /repo commit c361d96.",
+   note="Not decided: symmetry in general, DeepEqual on containers, NaN, what strconv accepts. Trusted: go/ssa; reflect.Kind numbering (Float32=13, Float64=14, String=24) is read as constants of the loaded reflect package's values in the SSA.",
+   technique="path-sensitive reachability on the SSA control-flow graph under fixed outcomes of named boolean tests; who-calls and sibling-agreement rules over resolved callees; transitive callee summaries (parse-routine sets)",
+   design="4 C06")
 NOT_YET = "checker for this property is not built yet in this revision (see DESIGN.md section 4 for the planned static rules)"
 ALL = ["C%02d" % i for i in range(1, 21)]
 
